@@ -114,7 +114,9 @@ const ZS: [f32; 3] = [1.0, 0.5, 0.1];
 
 fn check_interp<A: Attr>(t: [(f32, f32); 3], zi: usize, r: &mut Report, fam: &str) {
     r.eval();
-    let zs = [ZS[zi % 3], ZS[zi / 3 % 3], ZS[zi / 9]];
+    // zi = assignment (0..27) + 27 * magnitude: all three reciprocal depths scaled by 1, 2^-24 (w up to 1.7e8) or 2^10
+    let zscale = [1.0f32, 5.9604645e-8, 1024.0][zi / 27 % 3];
+    let zs = [ZS[zi % 3] * zscale, ZS[zi / 3 % 3] * zscale, ZS[zi / 9 % 3] * zscale];
     // perspective-correct attribute a_k, handed to the rasterizer pre-divided: v_k = a_k * z_k
     let a: [Vec<f32>; 3] = std::array::from_fn(|k| (0..A::N).map(|c| [0.0f32, 1.0, 0.25][(k + c) % 3] + 0.37 * c as f32).collect());
     let v: [Vec<f32>; 3] = std::array::from_fn(|k| a[k].iter().map(|x| x * zs[k]).collect());
@@ -193,10 +195,12 @@ fn families(quick: bool) -> Vec<(String, Vec<(f32, f32)>, usize, bool)> {
     f.push((format!("half-px N={} nudged by -2..+1 ulp", if quick { 1 } else { 2 }), Lat { kind: 3, n: if quick { 1 } else { 2 } }.points(), 0, false));
     if !quick {
         f.push(("quarter-px N=3".into(), Lat { kind: 1, n: 3 }.points(), 0, false));
-        for o in [7usize, 38, 69, 113, 24] { f.push((format!("half-px N=4 per-vertex offsets #{o}"), Lat { kind: 0, n: 4 }.points(), o, true)); }
+        for o in [7usize, 38, 69, 113, 24, 35, 55, 11] { f.push((format!("half-px N=4 per-vertex offsets #{o}"), Lat { kind: 0, n: 4 }.points(), o, true)); }
         f.push(("half-px N=4 +57 offset 0.1".into(), Lat { kind: 2, n: 4 }.points(), 2, false));
     } else {
-        f.push(("half-px N=3 per-vertex offsets #38".into(), Lat { kind: 0, n: 3 }.points(), 38, true));
+        // per-vertex offsets: #38 = (2^-10, 0.1, 1/3); #35 and #7 leave one vertex exactly on the half-pixel lattice
+        // (e.g. a middle vertex exactly on a pixel-centre row between two off-lattice ones)
+        for o in [38usize, 35, 7] { f.push((format!("half-px N=3 per-vertex offsets #{o}"), Lat { kind: 0, n: 3 }.points(), o, true)); }
     }
     f
 }
@@ -242,6 +246,8 @@ fn main() {
                 for zi in 0..27 {
                     check_interp::<f32>(t, zi, r, name);
                     if zi % 2 == 0 || !quick { check_interp::<(f32, Vec2)>(t, zi, r, name); }
+                    if zi % 4 == 1 || !quick { check_interp::<f32>(t, zi + 27, r, name); check_interp::<f32>(t, zi + 54, r, name); }
+                    if zi % 13 == 5 || (!quick && zi % 3 == 1) { check_interp::<(f32, Vec2)>(t, zi + 27, r, name); check_interp::<(f32, Vec2)>(t, zi + 54, r, name); }
                     if zi % 13 == 5 || (!quick && zi % 3 == 1) { check_interp::<Vec2>(t, zi, r, name); check_interp::<Vec3>(t, zi, r, name); check_interp::<Color3f>(t, zi, r, name); check_interp::<Point2>(t, zi, r, name); }
                 }
             }));
@@ -256,7 +262,7 @@ fn main() {
             &["screen coordinates in [0, 64] (negative pixel coordinates are outside tri_fill's usize domain)", "z = 1, attribute ()"]);
     } else {
         rep.finish(&cfg, "exploration",
-            "triangles as for C04 (thinned in the quick tier) x all 27 reciprocal-depth assignments over {1, 0.5, 0.1} (w ratio up to 10:1) x attribute types f32, (f32,Vec2) and, on a stated subset, Vec2, Vec3, Color3f, Point2 with distinct non-constant vertex values handed over pre-divided (a*z). Oracle: f64 barycentric planes through the vertex depths and values at the pixel centre; var = value plane / depth plane; tolerance 0.5% of the vertex range; every fragment finite for area > 1e-6 (triangles with minimum altitude < 0.05 px are judged for finiteness and position only); reported position within 1e-3 px of the pixel centre. non-trivial = triangle with >= 1 fragment fully judged.",
+            "triangles as for C04 (thinned in the quick tier) x all 27 reciprocal-depth assignments over {1, 0.5, 0.1} (w ratio up to 10:1), also with all three scaled by 2^-24 and 2^10 (f32 attribute; other types on a subset), x attribute types f32, (f32,Vec2) and, on a stated subset, Vec2, Vec3, Color3f, Point2 with distinct non-constant vertex values handed over pre-divided (a*z). Oracle: f64 barycentric planes through the vertex depths and values at the pixel centre; var = value plane / depth plane; tolerance 0.5% of the vertex range; every fragment finite for area > 1e-6 (triangles with minimum altitude < 0.05 px are judged for finiteness and position only); reported position within 1e-3 px of the pixel centre. non-trivial = triangle with >= 1 fragment fully judged.",
             &["coordinates in [0, 64]", "tolerance 0.005*range + 1e-5*max|value|"]);
     }
 }
